@@ -25,6 +25,9 @@ pub struct Case {
     /// only when level == 0: bit j set => the j-th flat bar (mod 64) is at -0.0 instead of +0.0
     #[serde(default)]
     pub neg_zero_mask: u64,
+    /// a long seed-expanded active life fed before `prefix`: (seed, length)
+    #[serde(default)]
+    pub gen_prefix: Option<(u64, usize)>,
 }
 
 /// how many identical flat bars make the window of this kind degenerate
@@ -50,7 +53,9 @@ pub fn check(c: &Case, ctx: &mut Ctx) -> Result<(), Failure> {
     let mut ind = Ind::build(k, &p).map_err(|_| Failure { signature: "C08:harness".into(), detail: "HARNESS build".into() })?;
     let wk = degenerate_len(k, &c.cfg);
     let flat = RawBar { o: c.level.0, h: c.level.0, l: c.level.0, c: c.level.0, v: c.vol.0 };
-    let total = c.prefix.len() + c.zv.len() + c.flat_len;
+    let glen = c.gen_prefix.map(|g| g.1).unwrap_or(0);
+    let mut gen = c.gen_prefix.map(|g| crate::props::c13::Gen::new(g.0, 0, c.level.0.max(1e-3), 5));
+    let total = glen + c.prefix.len() + c.zv.len() + c.flat_len;
     let mut big = 0.0f64;
     let mut run_equal = 0usize; // length of the current run of identical flat bars
     let mut zero_flow_run = 0usize; // consecutive moves without money flow
@@ -58,15 +63,19 @@ pub fn check(c: &Case, ctx: &mut Ctx) -> Result<(), Failure> {
     let (mut flat_steps, mut zf_steps) = (0u64, 0u64);
     let scalar = c.scalar && k.scalar();
     for i in 0..total {
-        let bar = if i < c.prefix.len() {
-            c.prefix[i]
-        } else if i < c.prefix.len() + c.zv.len() {
+        let gi = i;
+        let bar = if gi < glen {
+            gen.as_mut().unwrap().bar()
+        } else if gi - glen < c.prefix.len() {
+            c.prefix[gi - glen]
+        } else if gi - glen < c.prefix.len() + c.zv.len() {
+            let i = gi - glen;
             let mut b = c.zv[i - c.prefix.len()];
             b.v = 0.0;
             b
         } else {
             let mut f = flat;
-            if c.level.0 == 0.0 && (c.neg_zero_mask >> ((i - c.prefix.len() - c.zv.len()) % 64)) & 1 == 1 {
+            if c.level.0 == 0.0 && (c.neg_zero_mask >> ((i - glen - c.prefix.len() - c.zv.len()) % 64)) & 1 == 1 {
                 f.o = -0.0;
                 f.h = -0.0;
                 f.l = -0.0;
@@ -89,7 +98,7 @@ pub fn check(c: &Case, ctx: &mut Ctx) -> Result<(), Failure> {
         }
         last = Some(bar);
         let degenerate = run_equal >= wk.min(t);
-        let tag = || format!("{} ({} path) step {} (t={}): window of {} identical flat inputs at level {:e} after {} active bars", c.cfg.tag(), if scalar { "scalar" } else { "bar" }, i, t, run_equal, bar.c, c.prefix.len());
+        let tag = || format!("{} ({} path) step {} (t={}): window of {} identical flat inputs at level {:e} after {} active bars", c.cfg.tag(), if scalar { "scalar" } else { "bar" }, i, t, run_equal, bar.c, glen + c.prefix.len());
         if degenerate {
             flat_steps += 1;
             // every field finite
@@ -194,7 +203,7 @@ fn strategy(thorough: bool) -> BoxedStrategy<Case> {
     any_kind()
         .prop_flat_map(move |k| {
             // n in {1,2,3} forced often: RSI(2)/RSI(3) averages reach exactly 0 after 677 / 1072 flat bars
-            let per = prop_oneof![3 => 1usize..=3, 3 => 4usize..=8, 2 => period(256)];
+            let per = prop_oneof![3 => 1usize..=3, 3 => 4usize..=8, 2 => period(600)];
             let np = k.n_periods();
             (vec(per, np..=np), multiplier_any()).prop_map(move |(p, m)| Cfg { kind: k, p, m: X(if k.has_mult() { m } else { 0.0 }) })
         })
@@ -233,7 +242,7 @@ fn strategy(thorough: bool) -> BoxedStrategy<Case> {
                     b.c = f(b.c);
                 }
             }
-            Case { cfg, scalar, prefix, zv, level: X(level), vol: X(vol), flat_len, neg_zero_mask }
+            Case { cfg, scalar, prefix, zv, level: X(level), vol: X(vol), flat_len, neg_zero_mask, gen_prefix: None }
         })
         .boxed()
 }
@@ -270,7 +279,7 @@ pub fn run(g: &mut Global) {
             let kind = ALL_KINDS[(r / 8) as usize];
             let nst = n + 6;
             let flat_len = stretch(n, sj % nst);
-            Case { cfg: cfg_small(kind, n), scalar, prefix: fixed_prefix(pc, n), zv: vec![], level: X(level), vol: X(250.0), flat_len, neg_zero_mask: 0 }
+            Case { cfg: cfg_small(kind, n), scalar, prefix: fixed_prefix(pc, n), zv: vec![], level: X(level), vol: X(250.0), flat_len, neg_zero_mask: 0, gen_prefix: None }
         },
         &check,
     );
@@ -288,7 +297,28 @@ pub fn run(g: &mut Global) {
             let kind = kinds[(r / 6) as usize % kinds.len()];
             // repeat the 6-bit pattern so that longer stretches stay mixed
             let m6 = mask | (mask << 6) | (mask << 12) | (mask << 18) | (mask << 24) | (mask << 30) | (mask << 36);
-            Case { cfg: cfg_small(kind, n), scalar: i % 2 == 0, prefix: fixed_prefix(pc, n), zv: vec![], level: X(0.0), vol: X(250.0), flat_len: 2 * n + 6, neg_zero_mask: m6 }
+            Case { cfg: cfg_small(kind, n), scalar: i % 2 == 0, prefix: fixed_prefix(pc, n), zv: vec![], level: X(0.0), vol: X(250.0), flat_len: 2 * n + 6, neg_zero_mask: m6, gen_prefix: None }
+        },
+        &check,
+    );
+    // a flat stretch that begins after a long active life, placed so that the 2^16-th input of the
+    // instance falls inside it at several offsets (occasional re-synchronisations fire there)
+    let seed = g.seed;
+    const LL: [f64; 8] = [0.1, 3.3, 85.18, 1234.56, 64999.01, 1.0, 0.7, 123.456];
+    g.exhaustive(
+        "flat_after_long_life",
+        22 * 10 * 8 * 3,
+        &move |i| {
+            let off = [0usize, 1, 2][(i % 3) as usize];
+            let r = i / 3;
+            let level = LL[(r % 8) as usize];
+            let r = r / 8;
+            let n = (r % 10) as usize + 1;
+            let kind = ALL_KINDS[(r / 10) as usize];
+            // the flat stretch starts n + 1 + off inputs before the 65 536th input
+            let glen = 65_536 - (n + 1 + 2 * off);
+            let mut s = seed ^ (i + 5).wrapping_mul(0x9E3779B97F4A7C15);
+            Case { cfg: cfg_small(kind, n), scalar: i % 2 == 0, prefix: vec![], zv: vec![], level: X(level), vol: X(100.0), flat_len: 3 * n + 8, neg_zero_mask: 0, gen_prefix: Some((splitmix(&mut s), glen)) }
         },
         &check,
     );
